@@ -1229,6 +1229,207 @@ Proof.
   f_equal. destruct s; unfold w_set_rem; cbn in *; subst; reflexivity.
 Qed.
 
+(* ------------------------- round trips INSIDE bounded blocks (truncated codes) *)
+(* from a `feeds` fact every primitive follows, whatever kind of source it is *)
+Lemma r_uint_from_feeds v s s' : r_wf s -> 0 <= v -> feeds r_read_bit s (uint_bits v) s' ->
+  r_read_uint s = (s', Ok v).
+Proof.
+  intros W Hv F. unfold r_read_uint. unfold uint_bits in F.
+  pose proof (g_uint_feeds r_read_bit _ 1 _ _ 0%nat F) as G.
+  rewrite uint_value in G by assumption.
+  eapply g_uint_fuel_irrelevant; [exact G|discriminate|].
+  apply r_read_uint_no_fuel. assumption.
+Qed.
+Lemma r_sint_from_feeds v s s' : r_wf s -> feeds r_read_bit s (sint_bits v) s' ->
+  r_read_sint s = (s', Ok v).
+Proof.
+  intros W F. unfold r_read_sint. apply g_sint_feeds with (v := v); [assumption|].
+  intros m Fm. apply r_uint_from_feeds; [assumption|lia|assumption].
+Qed.
+Lemma r_nbits_from_feeds n v s s' : 0 <= n -> 0 <= v < 2 ^ n ->
+  feeds r_read_bit s (nbits_list (Z.to_nat n) v) s' -> r_read_nbits n s = (s', Ok v).
+Proof.
+  intros Hn Hv F. unfold r_read_nbits.
+  pose proof (g_nbits_feeds r_read_bit Z.lor lor_comb _ 0 _ _ F) as G.
+  rewrite nbits_list_length in G. rewrite G. rewrite nbits_value; [reflexivity|].
+  rewrite Z2Nat.id by lia. assumption.
+Qed.
+Lemma d_uintb_from_feeds v s s' : d_wf s -> 0 <= v -> feeds d_read_bitb s (uint_bits v) s' ->
+  d_read_uintb s = (s', Ok v).
+Proof.
+  intros W Hv F. unfold d_read_uintb. unfold uint_bits in F.
+  pose proof (g_uint_feeds d_read_bitb _ 1 _ _ 0%nat F) as G.
+  rewrite uint_value in G by assumption.
+  eapply g_uint_fuel_irrelevant; [exact G|discriminate|].
+  apply d_read_uintb_no_fuel. assumption.
+Qed.
+Lemma d_sintb_from_feeds v s s' : d_wf s -> feeds d_read_bitb s (sint_bits v) s' ->
+  d_read_sintb s = (s', Ok v).
+Proof.
+  intros W F. unfold d_read_sintb. apply g_sint_feeds with (v := v); [assumption|].
+  intros m Fm. apply d_uintb_from_feeds; [assumption|lia|assumption].
+Qed.
+
+Definition all_ones (l : list bool) : Prop := Forall (fun b => b = true) l.
+
+(* the writer inside a block with k bits left: accepted iff everything past the end is 1;
+   only the first max(k,0) bits reach the file; the counter always drops by the full length *)
+Lemma w_write_bits_blk : forall l s k, w_wf s -> w_rem s = Some k ->
+  all_ones (skipn (Z.to_nat k) l) ->
+  exists s', w_write_bits l s = (s', None) /\ w_view s' = w_view s ++ firstn (Z.to_nat k) l /\ w_wf s' /\
+             w_rem s' = Some (k - Z.of_nat (length l)) /\
+             w_bitpos s' = w_bitpos s + Z.of_nat (length (firstn (Z.to_nat k) l)).
+Proof.
+  induction l as [|b l IH]; intros s k W R A.
+  - exists s. cbn [w_write_bits length]. rewrite firstn_nil. cbn [length]. rewrite app_nil_r.
+    repeat split; try assumption; try apply W; try lia. rewrite R. f_equal. lia.
+  - cbn [w_write_bits]. destruct (Z_le_gt_dec k 0) as [K|K].
+    + replace (Z.to_nat k) with 0%nat in * by lia. cbn [skipn firstn] in *.
+      pose proof (Forall_inv A) as Hb. pose proof (Forall_inv_tail A) as A'. cbn beta in Hb. subst b.
+      rewrite (w_write_past_end _ _ true R K).
+      destruct (IH (w_set_rem s (Some (k - 1))) (k - 1) W eq_refl) as [s' [E [V [W' [R' P']]]]].
+      { replace (Z.to_nat (k - 1)) with 0%nat by lia. exact A'. }
+      replace (Z.to_nat (k - 1)) with 0%nat in * by lia. cbn [firstn length] in *.
+      exists s'. split; [exact E|]. repeat split; try assumption; try apply W'.
+      rewrite R'. f_equal. cbn [length]. lia.
+    + rewrite (w_write_inside _ _ b R) by lia.
+      set (s0 := w_set_rem s (Some (k - 1))).
+      destruct (w_put_spec b s0 W) as [V1 [W1 [P1 R1]]].
+      replace (Z.to_nat k) with (S (Z.to_nat (k - 1))) in * by lia. cbn [skipn firstn] in *.
+      destruct (IH (w_put b s0) (k - 1) W1 ltac:(rewrite R1; reflexivity) A) as [s' [E [V [W' [R' P']]]]].
+      exists s'. split; [exact E|]. repeat split; try assumption; try apply W'.
+      * rewrite V, V1. change (w_view s0) with (w_view s). rewrite <- app_assoc. reflexivity.
+      * rewrite R'. f_equal. cbn [length]. lia.
+      * rewrite P', P1. change (w_bitpos s0) with (w_bitpos s). cbn [length]. lia.
+Qed.
+(* ... and a 0 past the end is rejected with ValueError *)
+Lemma w_write_bits_blk_reject : forall l s k, w_rem s = Some k ->
+  ~ all_ones (skipn (Z.to_nat k) l) -> exists s', w_write_bits l s = (s', Some EValue).
+Proof.
+  induction l as [|b l IH]; intros s k R A.
+  - exfalso. apply A. rewrite skipn_nil. constructor.
+  - cbn [w_write_bits]. destruct (Z_le_gt_dec k 0) as [K|K].
+    + replace (Z.to_nat k) with 0%nat in * by lia. cbn [skipn] in A.
+      rewrite (w_write_past_end _ _ b R K). destruct b.
+      * apply (IH (w_set_rem s (Some (k - 1))) (k - 1) eq_refl). replace (Z.to_nat (k - 1)) with 0%nat by lia. cbn [skipn].
+        intros H. apply A. constructor; [reflexivity|assumption].
+      * eexists. reflexivity.
+    + rewrite (w_write_inside _ _ b R) by lia.
+      apply (IH _ (k - 1)).
+      * unfold w_put, w_write_byte. cbn. destruct (w_nb s - 1 <? 0); reflexivity.
+      * replace (Z.to_nat k) with (S (Z.to_nat (k - 1))) in A by lia. exact A.
+Qed.
+
+(* BitstreamReader inside a block with k bits left *)
+Lemma r_feeds_blk : forall l s k rest, r_wf s -> r_rem s = Some k ->
+  r_view s = firstn (Z.to_nat k) l ++ rest -> all_ones (skipn (Z.to_nat k) l) ->
+  exists s', feeds r_read_bit s l s' /\ r_wf s' /\ r_rem s' = Some (k - Z.of_nat (length l)) /\ r_view s' = rest /\
+             r_bitpos s' = r_bitpos s + Z.of_nat (length (firstn (Z.to_nat k) l)) /\ r_file s' = r_file s.
+Proof.
+  induction l as [|b l IH]; intros s k rest W R V A.
+  - exists s. rewrite firstn_nil in *. cbn [length app] in *. repeat split; try assumption; try constructor; try apply W; try lia.
+    rewrite R. f_equal. lia.
+  - destruct (Z_le_gt_dec k 0) as [K|K].
+    + replace (Z.to_nat k) with 0%nat in * by lia. cbn [skipn firstn app] in *.
+      pose proof (Forall_inv A) as Hb. pose proof (Forall_inv_tail A) as A'. cbn beta in Hb. subst b.
+      destruct (IH (r_set_rem s (Some (k - 1))) (k - 1) rest W eq_refl) as [s' [F [W' [R' [V' [P' F']]]]]].
+      { replace (Z.to_nat (k - 1)) with 0%nat by lia. exact V. }
+      { replace (Z.to_nat (k - 1)) with 0%nat by lia. exact A'. }
+      replace (Z.to_nat (k - 1)) with 0%nat in * by lia. cbn [firstn length] in *.
+      exists s'. repeat split; try assumption; try apply W'.
+      * apply (feeds_cons r_read_bit s (r_set_rem s (Some (k - 1))) s' true l); [|exact F].
+        apply r_read_past_end; assumption.
+      * rewrite R'. f_equal. cbn [length]. lia.
+    + replace (Z.to_nat k) with (S (Z.to_nat (k - 1))) in * by lia. cbn [skipn firstn app] in *.
+      set (s0 := r_set_rem s (Some (k - 1))).
+      assert (W0 : r_wf s0) by exact W.
+      pose proof (r_get_spec s0 W0) as G. change (r_view s0) with (r_view s) in G. rewrite V in G.
+      destruct G as [s1 [G1 [G2 [G3 [G4 [G5 [G6 _]]]]]]].
+      destruct (IH s1 (k - 1) rest G3 ltac:(rewrite G4; reflexivity) G2 A) as [s' [F [W' [R' [V' [P' F']]]]]].
+      exists s'. repeat split; try assumption; try apply W'.
+      * apply (feeds_cons r_read_bit s s1 s' b l); [|exact F].
+        rewrite (r_read_inside _ _ R) by lia. exact G1.
+      * rewrite R'. f_equal. cbn [length]. lia.
+      * rewrite P', G5. change (r_bitpos s0) with (r_bitpos s). cbn [length]. lia.
+      * rewrite F', G6. reflexivity.
+Qed.
+
+(* the validator's reader inside a block with k >= 0 bits left *)
+Lemma d_feeds_blk : forall l s k rest, d_wf s -> d_left s = k -> 0 <= k ->
+  d_view s = firstn (Z.to_nat k) l ++ rest -> all_ones (skipn (Z.to_nat k) l) ->
+  exists s', feeds d_read_bitb s l s' /\ d_wf s' /\ d_left s' = Z.max 0 (k - Z.of_nat (length l)) /\ d_view s' = rest /\
+             d_bitpos s' = d_bitpos s + Z.of_nat (length (firstn (Z.to_nat k) l)) /\ d_file s' = d_file s.
+Proof.
+  induction l as [|b l IH]; intros s k rest W L Hk V A.
+  - exists s. rewrite firstn_nil in *. cbn [length app] in *. repeat split; try assumption; try constructor; try apply W; try lia.
+  - destruct (Z.eq_dec k 0) as [K|K].
+    + subst k. rewrite K in *. cbn [Z.to_nat skipn firstn app] in *.
+      pose proof (Forall_inv A) as Hb. pose proof (Forall_inv_tail A) as A'. cbn beta in Hb. subst b.
+      destruct (IH s 0 rest W K ltac:(lia) V A') as [s' [F [W' [R' [V' [P' F']]]]]].
+      cbn [Z.to_nat firstn length] in *.
+      exists s'. repeat split; try assumption; try apply W'.
+      * apply (feeds_cons d_read_bitb s s s' true l); [|exact F]. apply d_read_past_end; assumption.
+      * rewrite R'. cbn [length]. lia.
+    + replace (Z.to_nat k) with (S (Z.to_nat (k - 1))) in * by lia. cbn [skipn firstn app] in *.
+      set (s0 := d_set_left s (d_left s - 1)).
+      assert (W0 : d_wf s0) by exact W.
+      pose proof (d_read_bit_spec s0 W0) as G. change (d_view s0) with (d_view s) in G. rewrite V in G.
+      destruct G as [s1 [G1 [G2 [G3 [G4 [G5 G6]]]]]].
+      destruct (IH s1 (k - 1) rest G3 ltac:(rewrite G4; cbn [s0 d_set_left d_left]; lia) ltac:(lia) G2 A) as [s' [F [W' [R' [V' [P' F']]]]]].
+      exists s'. repeat split; try assumption; try apply W'.
+      * apply (feeds_cons d_read_bitb s s1 s' b l); [|exact F].
+        rewrite d_read_inside by lia. exact G1.
+      * rewrite R'. cbn [length]. lia.
+      * rewrite P', G5. change (d_bitpos s0) with (d_bitpos s). cbn [length]. lia.
+      * rewrite F', G6. reflexivity.
+Qed.
+
+Lemma w_write_bits_app l1 l2 s :
+  w_write_bits (l1 ++ l2) s = match w_write_bits l1 s with (s1, None) => w_write_bits l2 s1 | r => r end.
+Proof.
+  revert s. induction l1 as [|b l1 IH]; intros s; cbn [app w_write_bits].
+  - destruct (w_write_bits l2 s) as [s1 [e|]]; reflexivity.
+  - destruct (w_write_bit b s) as [s1 [e|]]; [reflexivity|]. apply IH.
+Qed.
+Lemma w_write_sint_bits v s : w_write_sint v s = w_write_bits (sint_bits v) s.
+Proof.
+  unfold w_write_sint, sint_bits, w_write_uint. destruct (Z.abs v <? 0) eqn:E0; [lia|].
+  rewrite w_write_bits_app. destruct (w_write_bits (uint_bits (Z.abs v)) s) as [s1 [e|]]; [reflexivity|].
+  destruct (v =? 0); [reflexivity|]. cbn [w_write_bits].
+  destruct (w_write_bit (v <? 0) s1) as [s2 [e|]]; reflexivity.
+Qed.
+
+(* The bounded-block round trip: whatever exp-Golomb code the writer ACCEPTED in a block with
+   k bits left (so its tail past the end is all 1s and never reached the file), both readers,
+   in a block with k bits left, read back the same value, consume only the bits that are in
+   the file, and drop their counters by the full code length; a code with a 0 past the end
+   is rejected with ValueError. *)
+Lemma blk_sint_roundtrip v k :
+  all_ones (skipn (Z.to_nat k) (sint_bits v)) ->
+  (forall w, w_wf w -> w_rem w = Some k ->
+     exists w', w_write_sint v w = (w', None) /\ w_view w' = w_view w ++ firstn (Z.to_nat k) (sint_bits v) /\
+                w_rem w' = Some (k - Z.of_nat (length (sint_bits v)))) /\
+  (forall r rest, r_wf r -> r_rem r = Some k -> r_view r = firstn (Z.to_nat k) (sint_bits v) ++ rest ->
+     exists r', r_read_sint r = (r', Ok v) /\ r_view r' = rest /\ r_rem r' = Some (k - Z.of_nat (length (sint_bits v))) /\
+                r_bitpos r' = r_bitpos r + Z.of_nat (length (firstn (Z.to_nat k) (sint_bits v)))) /\
+  (0 <= k -> forall d rest, d_wf d -> d_left d = k -> d_view d = firstn (Z.to_nat k) (sint_bits v) ++ rest ->
+     exists d', d_read_sintb d = (d', Ok v) /\ d_view d' = rest /\ d_left d' = Z.max 0 (k - Z.of_nat (length (sint_bits v))) /\
+                d_bitpos d' = d_bitpos d + Z.of_nat (length (firstn (Z.to_nat k) (sint_bits v)))).
+Proof.
+  intros A. split; [|split].
+  - intros w W R. rewrite w_write_sint_bits.
+    destruct (w_write_bits_blk _ _ _ W R A) as [w' [E [V [W' [R' P']]]]]. exists w'. auto.
+  - intros r rest W R V.
+    destruct (r_feeds_blk _ _ _ _ W R V A) as [r' [F [W' [R' [V' [P' F']]]]]].
+    exists r'. split; [apply r_sint_from_feeds; assumption|auto].
+  - intros Hk d rest W L V.
+    destruct (d_feeds_blk _ _ _ _ W L Hk V A) as [d' [F [W' [R' [V' [P' F']]]]]].
+    exists d'. split; [apply d_sintb_from_feeds; assumption|auto].
+Qed.
+Lemma blk_sint_reject v k s : w_rem s = Some k -> ~ all_ones (skipn (Z.to_nat k) (sint_bits v)) ->
+  exists s', w_write_sint v s = (s', Some EValue).
+Proof. intros R A. rewrite w_write_sint_bits. eapply w_write_bits_blk_reject; eauto. Qed.
+
 Lemma exp_golomb_length_dom_ok v : 0 <= v -> exp_golomb_length_dom v = true.
 Proof. intros H. unfold exp_golomb_length_dom. destruct (v <? 0) eqn:E; [lia|reflexivity]. Qed.
 Lemma signed_exp_golomb_length_dom_ok v : signed_exp_golomb_length_dom v = true.
